@@ -897,7 +897,7 @@ func stringOperands(v ssa.Value, depth int) []ssa.Value {
 			return out
 		}
 		f := staticCallee(&x.Call)
-		if isFn(f, "fmt", "Sprintf") || isFn(f, "fmt", "Sprint") || isFn(f, "fmt", "Sprintln") {
+		if isFn(f, "fmt", "Sprintf") || isFn(f, "fmt", "Sprint") || isFn(f, "fmt", "Sprintln") || isFn(f, "fmt", "Appendf") || isFn(f, "fmt", "Append") || isFn(f, "fmt", "Appendln") {
 			var out []ssa.Value
 			for _, a := range x.Call.Args {
 				if sl, ok := a.(*ssa.Slice); ok {
@@ -1059,7 +1059,7 @@ func (c *Ctx) RuleRxRebuild() *Result {
 									for _, r3 := range referrers(sl) {
 										if call, ok := r3.(*ssa.Call); ok {
 											f := staticCallee(&call.Call)
-											if isFn(f, "fmt", "Sprintf") || isFn(f, "fmt", "Sprint") || isFn(f, "fmt", "Sprintln") {
+											if isFn(f, "fmt", "Sprintf") || isFn(f, "fmt", "Sprint") || isFn(f, "fmt", "Sprintln") || isFn(f, "fmt", "Appendf") || isFn(f, "fmt", "Append") || isFn(f, "fmt", "Appendln") {
 												if !climb(call, depth+1) {
 													roots[call] = true
 												}
